@@ -144,6 +144,14 @@ NET_DEFAULTS = {"write": ["56"], "multicast": ["N"], "check_connection": ["3", "
                 "lookup_address": ["0"], "release_address": ["0"]}
 
 
+_CUR_WORLD = [None]
+
+
+def _world_of(_d):
+    """the simulated world of the running session (blocking calls poll: SimWorld.polling)"""
+    return _CUR_WORLD[0]
+
+
 def expand_defaults(toks, table=None):
     """`dflt <method> <required args>` -> the explicit call with the documented default values"""
     return toks[1:] + (table or DEFAULTS)[toks[1]] if toks and toks[0] == "dflt" else toks
@@ -154,12 +162,14 @@ def call_with_defaults(d, t):
     m = t[0]
     if m == "send":
         buf = parse_buf(t[1])
-        return f"{s_send_res(d.send(buf))} buf={hx(buf)}"
+        with _world_of(d).polling():
+            return f"{s_send_res(d.send(buf))} buf={hx(buf)}"
     if m == "write":
         buf = parse_buf(t[1])
         return f"{sb(d.write(buf))} buf={hx(buf)}"
     if m == "resend":
-        return s_send_res(d.resend())
+        with _world_of(d).polling():
+            return s_send_res(d.resend())
     if m == "read":
         r = d.read()
         return "N" if r is None else hx(r)
@@ -225,18 +235,21 @@ def rf24_call(d, toks):
         return "N" if r is None else hx(r)
     if m == "send":
         buf = parse_buf(t[1])
-        r = d.send(buf, pb(t[2]), int(t[3]), pb(t[4]))
+        with _world_of(d).polling():
+            r = d.send(buf, pb(t[2]), int(t[3]), pb(t[4]))
         return f"{s_send_res(r)} buf={hx(buf)}"
     if m == "sendl":
         bufs = [parse_buf(x, k) for k, x in enumerate(t[4:])]
-        r = d.send(bufs, pb(t[1]), int(t[2]), pb(t[3]))
+        with _world_of(d).polling():
+            r = d.send(bufs, pb(t[1]), int(t[2]), pb(t[3]))
         return "[" + ",".join(s_send_res(x) for x in r) + "] buf=" + ",".join(hx(b) for b in bufs)
     if m == "write":
         buf = parse_buf(t[1])
         r = d.write(buf, pb(t[2]), pb(t[3]))
         return f"{sb(r)} buf={hx(buf)}"
     if m == "resend":
-        return s_send_res(d.resend(pb(t[1])))
+        with _world_of(d).polling():
+            return s_send_res(d.resend(pb(t[1])))
     if m == "update":
         return sb(d.update())
     if m == "clear_status_flags":
@@ -298,6 +311,7 @@ class Session:
     def __init__(self, nradios: int, plus: bool):
         reset_pool()
         self.world = SimWorld(nradios, plus)
+        _CUR_WORLD[0] = self.world
         simradio.patch_time(self.world)
         self.objs = {}
         self.air_seen = 0
